@@ -341,6 +341,23 @@ def to_tenths(rng, values, f32=True):
     return [rec(v) for v in values]
 
 
+def to_noisy(rng, values):
+    """Every coordinate moved by a random fraction with a full double mantissa (some below 1
+    in magnitude): for oracles that only compare, copy or take minima / maxima."""
+    def one(c):
+        if c != c:
+            return c
+        return (c % 2.0) * rng.random() if rng.random() < 0.3 else c + rng.random()
+
+    def rec(v):
+        if v is None:
+            return None
+        if isinstance(v, list) and v and isinstance(v[0], list):
+            return [rec(x) for x in v]
+        return [one(c) for c in v]
+    return [rec(v) for v in values]
+
+
 def loosen_rings(spec, rng, prob=0.4):
     """Polygons as they arrive from unvalidated sources: a further ring that is NOT inside the
     first one (the library never validates; an element's box is the box of all its vertices).
